@@ -65,8 +65,18 @@ pub fn observe(text: &str) -> Value {
                 Ok(v) => (v, true),
                 Err(_) => (vec![], false),
             };
+            // the same configuration through the bindings: what category_for answers for every listed name
+            let names: Vec<String> = c.categories.iter().flat_map(|k| k.ingredients.iter().flat_map(|i| i.names.iter().map(|n| n.to_string()))).collect();
+            let ffi = guarded(|| {
+                let conf = ffi_shim::parse_aisle_config(text.to_string());
+                names.iter().map(|n| json!({"key": str_to_syms(n), "category": conf.category_for(n.clone()).map(|x| json!(str_to_syms(&x))).unwrap_or(Value::Null)})).collect::<Vec<_>>()
+            });
+            let (ffi, ffi_ok) = match ffi {
+                Ok(v) => (v, true),
+                Err(_) => (vec![], false),
+            };
             json!({"st": "ok", "cats": cats, "rt": rt, "written": str_to_syms(&written_s),
-                   "lookup": lookup, "lookup_ran": lookup_ok})
+                   "lookup": lookup, "lookup_ran": lookup_ok, "ffi": ffi, "ffi_ran": ffi_ok})
         })
     });
     match parsed {
